@@ -90,6 +90,9 @@ pub use self::{
 	keyedvec::KeyedVec,
 	mem_tracking::{DecodeWithMemLimit, DecodeWithMemTracking, MemTrackingInput},
 };
+#[cfg(any(kani, parity_scale_codec_verif))]
+#[doc(hidden)]
+pub use self::depth_limit::{__verif_decode_at_depth, __verif_depth_step};
 #[cfg(feature = "max-encoded-len")]
 pub use const_encoded_len::ConstEncodedLen;
 #[cfg(feature = "max-encoded-len")]
